@@ -2,7 +2,7 @@
 import re, itertools
 from .. import xorrules, tables, callgraph
 from ..build import AnalysisBroken
-from ..vflow import access_path, fields_in_path, strip_ptr_casts
+from ..vflow import access_path, fields_in_path, strip_ptr_casts, strip_int_casts, derived_pointers, Canon
 from ..ir import INT
 
 EXPLANATION = (
@@ -230,6 +230,55 @@ def run(ctx):
     r = ctx.rule('R05h', 'xor_reconstruct_one falls back to the full decoder with the complete erasure list',
                  'a decoder that does not know which parities are erased solves with a zero-filled placeholder')
     xorrules.reconstruct_fallback_rule(P, r)
+    r.require_min(2)
+    r = ctx.rule('R05m', 'flat-XOR code: a fragment-array subscript formed by a subtraction subtracts k (absolute parity index -> parity-relative), nothing else',
+                 'parity[index - m] is some other slot (or none) whenever k != m: the wrong buffer is read or cleared')
+    nm5 = 0
+    for u5 in xorrules.XOR_UNITS:
+        for fn5 in P.mod(u5).functions.values():
+            bufs5 = {n_ for t_, n_ in fn5.params if t_ == 'i8**'}
+            if not bufs5:
+                continue
+            A5, _ = derived_pointers(fn5, sorted(bufs5))
+            for g5 in fn5.insts():
+                if g5.op != 'getelementptr' or g5.ops[0] not in A5 or INT.match(g5.ops[-1]):
+                    continue
+                d5 = fn5.defs.get(strip_int_casts(fn5, g5.ops[-1]))
+                if d5 is None or d5.op != 'sub':
+                    continue
+                nm5 += 1
+                sd5 = fn5.defs.get(strip_int_casts(fn5, d5.ops[1]))
+                fl5 = fields_in_path(access_path(P, fn5, sd5.ops[0])[1]) if sd5 is not None and sd5.op == 'load' else []
+                inst = f'{fn5.name}: subscript (x - y) at line {g5.line}'
+                if fl5 and fl5[-1] == ('xor_code_s', 'k'):
+                    r.ok(inst + ': y is k', func=fn5.name, loc=g5.loc)
+                else:
+                    r.fail(inst, func=fn5.name, sig=f'fragment subscript subtracts {fl5[-1][1] if fl5 else "a value other than k"}', loc=g5.loc,
+                           msg=f'{fn5.name} forms a fragment-array subscript by subtracting {("code_desc->" + fl5[-1][1]) if fl5 else Canon(P, fn5).val(d5.ops[1])[:40]} from an index: '
+                               'the only conversion between the index spaces is "absolute parity index - k"')
+    r.require_min(3)
+    r = ctx.rule('R05l', 'flat-XOR encoders XOR whole fragments: xor_bufs_and_store(data[i], parity[j], blocksize) with the buffers and the length of the request',
+                 'parity must be the XOR of its equation over every byte: a strip-wise encoder with its own offsets and lengths leaves bytes out for some payload lengths')
+    nl5 = 0
+    for ename in ('xor_code_encode', 'selective_encode'):
+        ef5 = P.fn(ename)
+        names5 = [n_ for _, n_ in ef5.params]
+        Ad5, _ = derived_pointers(ef5, [names5[1]])
+        Ap5, _ = derived_pointers(ef5, [names5[2]])
+        bs5 = names5[-1]
+        for c5 in [i for i in ef5.insts() if i.op == 'call' and i.callee == '@xor_bufs_and_store']:
+            nl5 += 1
+            s5, d5 = ef5.defs.get(strip_ptr_casts(ef5, c5.ops[0])), ef5.defs.get(strip_ptr_casts(ef5, c5.ops[1]))
+            ok5 = (s5 is not None and s5.op == 'load' and s5.ops[0] in Ad5 and d5 is not None and d5.op == 'load' and d5.ops[0] in Ap5
+                   and strip_int_casts(ef5, c5.ops[2]) == bs5)
+            inst = f'{ename}: xor_bufs_and_store at line {c5.line}'
+            if ok5:
+                r.ok(inst + ': (data[i], parity[j], blocksize)', func=ef5.name, loc=c5.loc)
+            else:
+                C5 = Canon(P, ef5)
+                r.fail(inst, func=ef5.name, sig=f'xor kernel called with ({C5.val(c5.ops[0])[:30]}, {C5.val(c5.ops[1])[:30]}, {C5.val(c5.ops[2])[:30]})', loc=c5.loc,
+                       msg=f'{ename} calls the XOR kernel with source {C5.val(c5.ops[0])}, destination {C5.val(c5.ops[1])} and length {C5.val(c5.ops[2])} instead of a data '
+                           'fragment, a parity fragment and the blocksize of the request: the bytes covered are no longer the whole payload by construction')
     r.require_min(2)
     r = ctx.rule('R05j', 'xor_reconstruct_one rebuilds a data element from the very equation index_of_connected_parity selected',
                  'the selector is the only place that checks that no other member of the equation is lost: any other equation may contain a second erased element')
